@@ -184,10 +184,8 @@ def d2_topic_once_tagged(ctx):
 
 
 def _up(f, name):
-    for i, nm in f.upvar_names.items():
-        if nm == name:
-            return i
-    return None
+    from ..roles import upvar_index
+    return upvar_index(f, name)
 
 
 def _guard_alive(ctx, f, site_bb):
@@ -424,7 +422,8 @@ def d5_prune(ctx):
                     ok = o and not cfg.returns_reachable_avoiding({lp["head"]})
                     # the list walked is the connection's owned_ids
                     its = [(b2, t2) for (b2, t2) in h.calls() if t2["f"].get("path", "").endswith("IntoIterator>::into_iter") and "vec::Vec" in t2["f"]["path"] and cfg.dominates(b2, bb)]
-                    ok = ok and any(isinstance(t2["args"][0], dict) and h.names.get(_root_local(h, fa, t2["args"][0].get("p", {}).get("l"))) == "owned_ids" for (b2, t2) in its)
+                    owned = _owned_list_local(ctx, h, fa)
+                    ok = ok and owned is not None and any(isinstance(t2["args"][0], dict) and _root_local(h, fa, t2["args"][0].get("p", {}).get("l")) == owned for (b2, t2) in its)
         ctx.chk.ob("D5", "a control connection unsubscribes every id it owns on every way out", ok, det[:200], key="D5:connection-cleanup")
     hs = ctx.fn("srtla_send::control::handle_subscribe::{closure#0}", "D5")
     if hs:
@@ -442,12 +441,43 @@ def d5_prune(ctx):
         ctx.chk.ob("D5", "a granted subscription id is recorded in the connection's owned list on every path after subscribe returns", ok, "", key="D5:owned-recorded")
 
 
+def _owned_list_local(ctx, h, fa):
+    """The connection's list of owned ids: the local whose `&mut` goes into SubscriptionContext.owned_ids."""
+    SC = "srtla_send::control::SubscriptionContext"
+    names = ctx.w.adt_fields(SC) or []
+    if "owned_ids" not in names:
+        return None
+    k = names.index("owned_ids")
+    found = set()
+    for bi, blk in enumerate(h.blocks):
+        for s in blk["stmts"]:
+            if s["k"] == "assign" and s["rv"]["k"] == "agg" and s["rv"].get("adt") == SC and len(s["rv"]["ops"]) > k:
+                o = s["rv"]["ops"][k]
+                l = o.get("p", {}).get("l") if isinstance(o, dict) else None
+                for _ in range(4):
+                    if l is None:
+                        break
+                    ds = fa.defs.get(l, [])
+                    if len(ds) == 1 and ds[0][2] == "assign" and ds[0][3]["k"] in ("ref", "raw"):
+                        p = ds[0][3]["p"]
+                        if not [e for e in p["proj"] if e["k"] != "deref"] and not p["proj"]:
+                            found.add(p["l"])
+                            break
+                        l = p["l"]
+                    elif len(ds) == 1 and ds[0][2] == "assign" and ds[0][3]["k"] == "use" and isinstance(ds[0][3]["o"], dict):
+                        l = ds[0][3]["o"].get("p", {}).get("l")
+                    else:
+                        break
+    return list(found)[0] if len(found) == 1 else None
+
+
 def _root_local(f, fa, l):
     for _ in range(4):
-        if l is None or f.names.get(l):
+        if l is None:
             return l
         ds = fa.defs.get(l, [])
-        if len(ds) == 1 and ds[0][2] == "assign" and ds[0][3]["k"] == "use" and isinstance(ds[0][3]["o"], dict) and not ds[0][3]["o"].get("p", {}).get("proj"):
+        if len(ds) == 1 and ds[0][2] == "assign" and ds[0][3]["k"] == "use" and isinstance(ds[0][3]["o"], dict) and ds[0][3]["o"].get("k") == "move" \
+                and not ds[0][3]["o"].get("p", {}).get("proj"):
             l = ds[0][3]["o"].get("p", {}).get("l")
         else:
             return l
